@@ -11,6 +11,7 @@ import (
 	"os"
 	"path/filepath"
 	"sort"
+	"time"
 
 	sp "github.com/scipipe/scipipe"
 	"github.com/scipipe/scipipe/components"
@@ -28,6 +29,7 @@ type Case struct {
 	Values   []string            `json:"values"`
 	Patterns []string            `json:"patterns"`
 	Command  string              `json:"command"`
+	PaceMs   int                 `json:"pace_ms"`
 }
 
 // FileCollector receives one IP from each in-port in turn (lock-step) until a port is closed.
@@ -73,8 +75,13 @@ func (c *FileCollector) Run() {
 			return
 		}
 		c.Tuples = append(c.Tuples, tuple)
+		if paceMs > 0 { // a consumer slower than the producers
+			time.Sleep(time.Duration(paceMs) * time.Millisecond)
+		}
 	}
 }
+
+var paceMs int
 
 type ParamCollector struct {
 	sp.BaseProcess
@@ -135,6 +142,7 @@ func main() {
 	if err := json.Unmarshal(raw, &c); err != nil {
 		panic(err)
 	}
+	paceMs = c.PaceMs
 	logf, _ := os.Create("wf.log")
 	sp.InitLog(ioutil.Discard, ioutil.Discard, ioutil.Discard, logf, logf, os.Stderr)
 	wf := sp.NewWorkflowCustomLogFile("ct", 4, "wf2.log")
@@ -183,6 +191,14 @@ func main() {
 		}
 		wf.Run()
 		result["tuples"], result["extra"] = col.Tuples, col.Extra
+	case "splitmany": // several files through ONE splitter in one run
+		src := components.NewFileSource(wf, "src", c.Files...)
+		spl := components.NewFileSplitter(wf, "spl", c.N)
+		col := NewFileCollector(wf, "col", []string{"in"})
+		spl.InFile().From(src.Out())
+		col.InPort("in").From(spl.OutSplitFile())
+		wf.Run()
+		result["tuples"] = col.Tuples
 	case "split":
 		src := components.NewFileSource(wf, "src", c.Path)
 		spl := components.NewFileSplitter(wf, "spl", c.N)
